@@ -107,6 +107,59 @@ func runChildSide(f lib.Flags, res *lib.Result, key string) {
 				tie.Record(sid.Triple+fmt.Sprint(sid.Seq), len(lines) > 6, in, "accepted:"+last(model), "accepted:"+last(verdicts))
 			}
 		}
+		// update-while-subscribing scenarios on every triple with an Update RPC
+		if t.update != nil {
+			for q := 0; q < f.N(2, 20); q++ {
+				sid := sessionID{Kind: "race", Triple: t.key(), Seed: f.Seed, Seq: q, Steps: f.N(12, 25)}
+				lines, verdicts := runRaceSession(t, sid, mon)
+				model, err := drv.Batch(lines)
+				if err != nil {
+					tie.Fail(err)
+					return
+				}
+				in := map[string]any{"kind": "race", "triple": sid.Triple, "seed": sid.Seed, "seq": sid.Seq, "steps": sid.Steps}
+				ok := true
+				for i := range lines {
+					if model[i] != verdicts[i] {
+						in["line"] = lines[i]
+						in["lines"] = lines[:i+1]
+						tie.Record(sid.Triple+"/race"+fmt.Sprint(sid.Seq), true, in, model[i], verdicts[i])
+						ok = false
+						break
+					}
+				}
+				if ok {
+					tie.Record(sid.Triple+"/race"+fmt.Sprint(sid.Seq), true, in, "accepted:"+last(model), "accepted:"+last(verdicts))
+				}
+			}
+		}
+		// servers whose Update can start background writes (a Tween field in the resource): tween scenarios
+		if t.update != nil && tweenField(t.resource) != nil {
+			for q := 0; q < f.N(8, 60); q++ {
+				sid := sessionID{Kind: "tween", Triple: t.key(), Seed: f.Seed, Seq: q, Steps: 4}
+				lines, verdicts := runTweenSession(t, sid, mon)
+				mon.Count("tween-sessions:" + t.key())
+				model, err := drv.Batch(lines)
+				if err != nil {
+					tie.Fail(err)
+					return
+				}
+				in := map[string]any{"kind": "tween", "triple": sid.Triple, "seed": sid.Seed, "seq": sid.Seq, "steps": sid.Steps}
+				ok := true
+				for i := range lines {
+					if model[i] != verdicts[i] {
+						in["line"] = lines[i]
+						in["lines"] = lines[:i+1]
+						tie.Record(sid.Triple+"/tween"+fmt.Sprint(sid.Seq), true, in, model[i], verdicts[i])
+						ok = false
+						break
+					}
+				}
+				if ok {
+					tie.Record(sid.Triple+"/tween"+fmt.Sprint(sid.Seq), true, in, "accepted:"+last(model), "accepted:"+last(verdicts))
+				}
+			}
+		}
 	}
 }
 
@@ -291,7 +344,7 @@ func replay(f lib.Flags) int {
 	}
 	b, _ := json.Marshal(in)
 	var sid sessionID
-	if err := json.Unmarshal(b, &sid); err != nil || sid.Kind != "triple" {
+	if err := json.Unmarshal(b, &sid); err != nil || (sid.Kind != "triple" && sid.Kind != "tween" && sid.Kind != "race") {
 		fmt.Println("replay: unknown input", string(b))
 		return 2
 	}
@@ -319,7 +372,14 @@ func replay(f lib.Flags) int {
 	for _, t := range triples {
 		if t.key() == sid.Triple {
 			found = true
-			lines, _ := runSession(t, sid, m)
+			run := runSession
+			if sid.Kind == "tween" {
+				run = runTweenSession
+			}
+			if sid.Kind == "race" {
+				run = runRaceSession
+			}
+			lines, _ := run(t, sid, m)
 			fmt.Printf("replay %s seq=%d seed=%d: %d observations\n  %s\n", sid.Triple, sid.Seq, sid.Seed, len(lines), strings.Join(lines, "\n  "))
 		}
 	}
